@@ -1949,6 +1949,56 @@ def true_overlap(kind, shape_data, P, Q, tol=1e-9):
     return T.band(*conj)
 
 
+def no_vertex_inside(shape_data, P, Q, margin=1e-7):
+    """necessary condition for two placed convex polygons NOT to overlap by more than `margin`-ish: no vertex of
+    one lies inside the other deeper than margin (used as the content of a negative edge test, via C12)"""
+    def place(M, x, y):
+        return (T.fbin("fadd", T.fbin("fadd", T.fbin("fmul", M[0], x), T.fbin("fmul", M[1], y)), M[2]),
+                T.fbin("fadd", T.fbin("fadd", T.fbin("fmul", M[3], x), T.fbin("fmul", M[4], y)), M[5]))
+    verts = [(sx, sy) for (sx, sy, ex_, ey_) in shape_data]
+    n = len(verts)
+    VP = [place(P, x, y) for x, y in verts]
+    VQ = [place(Q, x, y) for x, y in verts]
+    out = []
+    for VA, VB in ((VP, VQ), (VQ, VP)):
+        for (bx, by) in VB:
+            # b is NOT deep inside A: for some edge of A it is on the outer side (or within margin of it)
+            alts = []
+            for k in range(n):
+                (x0, y0), (x1, y1) = VA[k], VA[(k + 1) % n]
+                (xi, yi) = VA[(k + 2) % n]
+                ex_, ey_ = T.fbin("fsub", x1, x0), T.fbin("fsub", y1, y0)
+                side = lambda px, py: T.fbin("fsub", T.fbin("fmul", ex_, T.fbin("fsub", py, y0)), T.fbin("fmul", ey_, T.fbin("fsub", px, x0)))
+                sin_, sv = side(xi, yi), side(bx, by)
+                # same sign as the interior side and deeper than margin  -> inside w.r.t. this edge
+                inside_k = T.bor(T.band(T.fcmp("flt", 0.0, sin_), T.fcmp("flt", margin, sv)), T.band(T.fcmp("flt", sin_, 0.0), T.fcmp("flt", sv, -margin)))
+                alts.append(T.bnot(inside_k))
+            out.append(T.bor(*alts))
+    return T.band(*out)
+
+
+def translate_overlap(shape_data, P, Q, margin=0.0):
+    """Two placements with the SAME linear part of a centrally symmetric convex polygon overlap iff half their
+    offset lies strictly inside the placed polygon (Minkowski: P - P = 2P).  Linear in the offset, coefficients
+    linear in the orientation.  margin > 0 asks for an overlap deeper than ~margin."""
+    verts = [(sx, sy) for (sx, sy, ex_, ey_) in shape_data]
+    n = len(verts)
+    L = (P[0], P[1], P[3], P[4])
+    rot = lambda vx, vy: (T.fbin("fadd", T.fbin("fmul", L[0], vx), T.fbin("fmul", L[1], vy)), T.fbin("fadd", T.fbin("fmul", L[2], vx), T.fbin("fmul", L[3], vy)))
+    Dx = T.fbin("fmul", 0.5, T.fbin("fsub", Q[2], P[2]))
+    Dy = T.fbin("fmul", 0.5, T.fbin("fsub", Q[5], P[5]))
+    conj = []
+    for k in range(n):
+        (x0, y0), (x1, y1) = verts[k], verts[(k + 1) % n]
+        ex0, ey0 = x1 - x0, y1 - y0
+        const = ex0 * y0 - ey0 * x0            # cross(E, V) is invariant under the common rotation (det = 1)
+        sgn = 1.0 if (-const) > 0 else -1.0    # side of the centre
+        Ex, Ey = rot(ex0, ey0)
+        val = T.fbin("fsub", T.fbin("fsub", T.fbin("fmul", Ex, Dy), T.fbin("fmul", Ey, Dx)), const)
+        conj.append(T.fcmp("flt", margin, T.fbin("fmul", sgn, val)))
+    return T.band(*conj)
+
+
 def c01(res, tier, seed):
     import math
     data = S.real_data()
@@ -2068,6 +2118,12 @@ def c01(res, tier, seed):
                            fixR + list(pc) + G + [some, neg], timeout=60, meta=dict(group=g, shape=sname, k=k), nontrivial=False)
                 all_q.append(vq)
             import math as _m
+            # p1/p2 copies of a centrally symmetric polygon are translates of each other (W = +-I maps the vertex set
+            # onto itself): exact overlap has the simple Minkowski form
+            def central(sd):
+                vs = [(round(S.clean(it_[0]), 9), round(S.clean(it_[1]), 9)) for it_ in sd["items"]]
+                return all((-vx if vx != 0 else 0.0, -vy if vy != 0 else 0.0) in [(wx, wy) for wx, wy in vs] or any(abs(-vx - wx) < 1e-8 and abs(-vy - wy) < 1e-8 for wx, wy in vs) for vx, vy in vs)
+            translates = skind == "line" and all(abs(o[0]) == 1 and abs(o[4]) == 1 and o[1] == 0 and o[3] == 0 and o[0] == o[4] for o in groups[g]["ops"]) and central(sdata)
             nsides = len(sdata["items"])
             r_in = R * _m.cos(_m.pi / nsides) * (1 - 1e-12) if skind == "line" else None
 
@@ -2166,15 +2222,20 @@ def c01(res, tier, seed):
                                 qq.get_terms = [c_, s_, cth, sth]
                                 qq.rawq = (base + hyp + [goal], finish)
                                 if skind == "line":
-                                    def mk_stage2(i_=i_, j_=j_, n_=n_, m_=m_, k=k, base=base, clauses=clauses, gimg=gimg, finish=finish):
+                                    def mk_stage2(i_=i_, j_=j_, n_=n_, m_=m_, k=k, base=base, clauses=clauses, gimg=gimg, finish=finish, translates=translates):
                                         hyp2 = []
                                         for (li, lj, ln, lm), (pre, e) in clauses.items():
                                             near = ((li, lj) == (i_, j_) and max(abs(ln - n_), abs(lm - m_)) <= 1) or ((li, lj) == (j_, i_) and max(abs(ln + n_), abs(lm + m_)) <= 1)
                                             if near:
-                                                hyp2.append(T.bor(T.bnot(pre), T.bnot(code_intersects(e))))
-                                        goal2 = true_overlap("line", sitems, Pcopy[i_], gimg)
+                                                # content of a negative edge test (through C12): the polygons do not overlap, in
+                                                # particular no vertex of one lies inside the other
+                                                if translates:
+                                                    hyp2.append(T.bor(T.bnot(pre), T.bnot(translate_overlap(sitems, e["p"], e["q"], 1e-7))))
+                                                else:
+                                                    hyp2.append(T.bor(T.bnot(pre), no_vertex_inside(sitems, e["p"], e["q"])))
+                                        goal2 = translate_overlap(sitems, Pcopy[i_], gimg, 1e-6) if translates else true_overlap("line", sitems, Pcopy[i_], gimg)
                                         raw2 = base + hyp2 + [goal2]
-                                        q2 = Query("[%s x %s] k=%d copies %d,%d image (%d,%d) [not searched]: cannot overlap when the neighbouring tests are negative (stage 2: real edge tests, separating-axis overlap)" % (g, sname, k, i_, j_, n_, m_),
+                                        q2 = Query("[%s x %s] k=%d copies %d,%d image (%d,%d) [not searched]: cannot overlap when the neighbouring tests are negative (stage 2: no vertex of a tested neighbour inside the other, separating-axis overlap)" % (g, sname, k, i_, j_, n_, m_),
                                                    finish(raw2, i_=i_, j_=j_), timeout=90 if tier == "quick" else 600, meta=dict(group=g, shape=sname, k=k, i=i_, j=j_, n=n_, m=m_, kind="untested-exact", hypotheses=len(hyp2)))
                                         q2.get_terms = [c_, s_, cth, sth]
                                         q2.rawq = (raw2, finish)
@@ -2200,7 +2261,11 @@ def c01(res, tier, seed):
                                    finish(dom_geo + fixR + G + hyp + [far, close], i_=i_, j_=j_), timeout=60 if tier == "quick" else 300, meta=dict(group=g, shape=sname, k=k, i=i_, j=j_, window=(Wn, Wm), kind="far"))
                         all_q.append(qq)
                         ctxs.append((qq, ctx))
-    done = run_queries(all_q)
+    import time as _time
+    t_start = _time.time()
+    budget = 420 if tier == "quick" else 7200
+    deadline = t_start + budget
+    done = run_queries(all_q, deadline=deadline)
     ctx_of = {id(qq): cx for qq, cx in ctxs}
     # queries nlsat could not decide are split over a grid of the cell/offset domain (36 boxes); every
     # box must be unsat for the obligation to count, a sat box is a counterexample candidate
@@ -2223,7 +2288,7 @@ def c01(res, tier, seed):
                 qq.boxes.append(b)
                 subs.append(b)
         if subs:
-            run_queries(subs)
+            run_queries(subs, deadline=deadline)
             for qq in todo:
                 st = [b.status for b in qq.boxes]
                 qq.secs += sum(b.secs for b in qq.boxes)
@@ -2244,7 +2309,7 @@ def c01(res, tier, seed):
             ctx_of[id(q2)] = ctx_of.get(id(qq))
             stage2.append((qq, q2))
     if stage2:
-        run_queries([q2 for _, q2 in stage2])
+        run_queries([q2 for _, q2 in stage2], deadline=deadline)
         split_unknown([q2 for _, q2 in stage2], "split_round2")
         repl0 = {id(q1): q2 for q1, q2 in stage2}
         done = [repl0.get(id(qq), qq) for qq in done]
@@ -2256,7 +2321,7 @@ def c01(res, tier, seed):
     import math as _m2
     offs = [0.0, 0.1, 0.19, 0.21, 0.35, 0.45, 0.49, 0.51, 0.8, 1.04]
     ratios = [1.0, 0.8, 0.6, 0.53, 0.51, 0.49, 0.4, 0.34, 0.32, 0.2, 0.1]
-    undec = [qq for qq in done if qq.status not in ("sat", "unsat") and getattr(qq, "rawq", None) is not None]
+    undec = [qq for qq in done if qq.status not in ("sat", "unsat") and getattr(qq, "rawq", None) is not None][:40]
     gridq = []
     thetas = [k_ * _m2.pi / 8 + 0.05 for k_ in range(4)]   # squares/triangles: orientation modulo the shape's symmetry
     for qq in undec:
@@ -2278,7 +2343,10 @@ def c01(res, tier, seed):
                     qq.grid.append(gq)
                     gridq.append(gq)
     if gridq:
-        run_queries(gridq)
+        # interleave the goals so that a short budget still touches every goal
+        import random as _rnd
+        _rnd.Random(seed).shuffle(gridq)
+        run_queries(gridq, deadline=deadline + (180 if tier == "quick" else 3600))
         for qq in undec:
             hits = [gq for gq in qq.grid if gq.status == "sat"]
             qq.secs += sum(gq.secs for gq in qq.grid)
